@@ -188,3 +188,25 @@ Theorem root_depends_only_on_contents_with_faults :
     run_f fs1 = run_f fs2 /\ forall H : bytes -> bytes, root_hash H (run_f fs1) = root_hash H (run_f fs2).
 Proof. exact CorrProofs.root_depends_only_on_contents_with_faults. Qed.
 Print Assumptions root_depends_only_on_contents_with_faults.
+
+(* ---- CommitKnown (commit.go:29-40): commit iff the computed root equals the
+   expected one; it never changes the tree, so a FAILED CommitKnown is the
+   identity on the contents and on every later root (goes with
+   failed_op_leaves_tree; immediate on the functional model — the implementation
+   side is the "commitknown_bad" operations and "nobadknown" twins of the harness). ---- *)
+Theorem commit_known_ok :
+  forall H t, commit_known H (root_hash H t) t = (t, Some (snd (commit H t))).
+Proof. exact CorrProofs.commit_known_ok. Qed.
+Print Assumptions commit_known_ok.
+
+Theorem commit_known_bad :
+  forall H e t, e <> root_hash H t -> snd (commit_known H e t) = None /\ fst (commit_known H e t) = t.
+Proof. exact CorrProofs.commit_known_bad_full. Qed.
+Print Assumptions commit_known_bad.
+
+Theorem failed_commit_known_leaves_tree :
+  forall tab ops,
+    snd (c02_go tab Nil (drop_known ops)) = snd (c02_go tab Nil ops) /\
+    last (fst (c02_go tab Nil (drop_known ops ++ [CCommit]))) [] = last (fst (c02_go tab Nil (ops ++ [CCommit]))) [].
+Proof. exact CorrProofs.failed_commit_known_leaves_tree. Qed.
+Print Assumptions failed_commit_known_leaves_tree.
